@@ -87,17 +87,6 @@ theorem c11_fragments_are_pieces (H : Hdr) (B : List UInt8) (mtus : List Nat) (l
 
 /-! ### completion and correctness -/
 
-theorem track_inv {H : Hdr} {B : List UInt8} {id : BufId} (dg : Datagram H B) :
-    ∀ (ops : List Op) (rg : Reassembly × List Frag), RInv H B id rg.1 rg.2 →
-      (∀ op ∈ ops, GoodOp H B id op) → RInv H B id (track id rg ops).1 (track id rg ops).2 := by
-  intro ops
-  induction ops with
-  | nil => intro rg inv _; exact inv
-  | cons op ops ih =>
-    intro rg inv good
-    simp only [track, List.foldl_cons]
-    exact ih _ (trackStep_inv dg inv op (good op (by simp))) (fun o ho => good o (by simp [ho]))
-
 /-- **A datagram is returned exactly when the pieces received since its last completion cover
     it.**  After any operation sequence `ops`, let `g` be the fragments received for `id` since its
     buffer was last freed (by a completion, a flush or an expiry — `track` reads this off the
@@ -147,17 +136,6 @@ theorem c11_correct {H : Hdr} {B : List UInt8} {id : BufId} (dg : Datagram H B)
   · simp only [step, e'] at e
     cases e
 
-/-- `track` follows the run: its reassembler is the one `run` computes -/
-theorem track_fst (id : BufId) : ∀ (ops : List Op) (rg : Reassembly × List Frag),
-    (track id rg ops).1 = (run Cfg.fixed rg.1 ops).1 := by
-  intro ops
-  induction ops with
-  | nil => intro rg; rfl
-  | cons op ops ih =>
-    intro rg
-    simp only [track, List.foldl_cons, run]
-    exact ih _
-
 /-! ### isolation -/
 
 /-- **Fragments of datagrams that differ in source, destination, protocol or identification
@@ -169,6 +147,20 @@ theorem track_fst (id : BufId) : ∀ (ops : List Op) (rg : Reassembly × List Fr
 theorem c11_isolation (cfg : Cfg) (r : Reassembly) (op : Op) (id : BufId) (hne : ¬ op.concerns id) :
     lookup id (step cfg r op).1.segments = lookup id r.segments :=
   step_lookup_ne cfg r op id hne
+
+/-- any amount of foreign traffic (packets and expiries of other identifiers, panicking or not)
+    leaves the buffer of `id` exactly as it was -/
+theorem c11_isolation_run (cfg : Cfg) (id : BufId) : ∀ (ops : List Op) (r : Reassembly),
+    (∀ op ∈ ops, ¬ op.concerns id) →
+    lookup id (run cfg r ops).1.segments = lookup id r.segments := by
+  intro ops
+  induction ops with
+  | nil => intro r _; rfl
+  | cons op ops ih =>
+    intro r h
+    simp only [run]
+    rw [ih _ (fun o ho => h o (by simp [ho]))]
+    exact step_lookup_ne cfg r op id (h op (by simp))
 
 theorem c11_isolation_result (cfg : Cfg) (r1 r2 : Reassembly) (h : Hdr) (b : List UInt8)
     (hl : lookup (BufId.ofHdr h) r1.segments = lookup (BufId.ofHdr h) r2.segments)
